@@ -17,7 +17,6 @@ package dmap
 import (
 	"context"
 	"errors"
-	"strings"
 	"sync"
 	"time"
 
@@ -88,9 +87,11 @@ func (f *fragment) Move(part *partitions.Partition, name string, owners []discov
 		return err
 	}
 	fp := &fragmentPack{
-		PartID:  part.ID(),
-		Kind:    part.Kind(),
-		Name:    strings.TrimPrefix(name, "dmap."),
+		PartID: part.ID(),
+		Kind:   part.Kind(),
+		// name is the DMap's name: the balancer has already cut the "dmap." prefix of the
+		// fragment's name. Cutting it once more ships a DMap called "dmap.x" as "x".
+		Name:    name,
 		Payload: payload,
 	}
 	value, err := msgpack.Marshal(fp)
